@@ -1363,7 +1363,7 @@ func (c *Ctx) runTags(walker *ssa.Function) {
 	}
 	// option map updates
 	var optUpdates []*ssa.MapUpdate
-	core.Instrs(parser, func(in ssa.Instruction) {
+	p.RegionInstrs(parser, func(in ssa.Instruction) {
 		if mu, ok := in.(*ssa.MapUpdate); ok && core.TypeStr(mu.Map.Type()) == "map[string]string" {
 			optUpdates = append(optUpdates, mu)
 		}
@@ -1409,6 +1409,14 @@ func (c *Ctx) runTags(walker *ssa.Function) {
 					if cutTag != nil && ia.X == ssa.Value(split) {
 						return true // an element of Split(rest, ","): the rest of the tag after its first comma
 					}
+					// an element of the list a private step was handed: `parseTagOptions(parts[1:])`
+					if prm, isPrm := ia.X.(*ssa.Parameter); isPrm {
+						if sl, ok := core.Strip(p.Bind(prm)).(*ssa.Slice); ok && sl.X == ssa.Value(split) {
+							if k, ok := core.ConstInt(sl.Low); ok && k == 1 {
+								return true
+							}
+						}
+					}
 					return fromSplitRest(ia.X, d+1)
 				}
 			}
@@ -1440,7 +1448,7 @@ func (c *Ctx) runTags(walker *ssa.Function) {
 				fromRest = false
 			}
 		}
-		for _, l := range core.Lits(core.Guards(mu.Block())) {
+		for _, l := range p.ILits(mu.Block()) {
 			if l.Kind == "cmp" && l.Op == token.EQL {
 				for _, pair := range [][2]ssa.Value{{l.X, l.Y}, {l.Y, l.X}} {
 					if s, ok := core.ConstString(pair[1]); ok && s == "" {
